@@ -34,7 +34,9 @@ Definition parse_atom_f (b : byte) (rest : bytes) : option (bytes * bytes) :=
   if b2n b <? 128 then Some ([b], rest)
   else match decode_size_f (b2n b) rest with
        | None => None
-       | Some (size, rest') => take (N.to_nat size) rest'
+       | Some (size, rest') =>
+           (* binary comparison first: the declared size must not become a unary number unless the bytes are there *)
+           if N.of_nat (length rest') <? size then None else take (N.to_nat size) rest'
        end.
 
 (* traverse_path.rs: the path is an atom read as a big-endian number; leading zero bytes are
